@@ -111,6 +111,16 @@ func genC05(c *Ctx) *Plan {
 								}
 								p.P["restart_without_join"] = 1
 							}
+							if l != nil && r.chance(0.35) {
+								// back before anybody noticed the crash: nobody gossips anything about the node, so the
+								// stale record the others hold (old metadata, same incarnation) reaches the new instance
+								// only inside push/pull state - where it must be refuted just the same
+								rt = at + 20_000_000 + r.i64n(int64(ms(p.Cfg.ProbeIntervalMs))*8/10)
+								if rt >= tf-1_000_000 {
+									rt = tf - 2_000_000
+								}
+								p.P["quick_restart"] = 1
+							}
 							p.Ops = append(p.Ops, Op{At: rt, Kind: "restart", Node: node, L: l})
 							crashed[node] = false
 						}
@@ -557,6 +567,9 @@ func execC05(c *Ctx) {
 	}
 	if p.param("restart_without_join", 0) == 1 {
 		c.Reach("restart_without_join")
+	}
+	if p.param("quick_restart", 0) == 1 {
+		c.Reach("restart_before_the_crash_was_noticed")
 	}
 	c.Res.Faults["goroutine_descheduled"] += c.Sim.frozen
 	c.Res.Nontrivial = pre && len(live) >= 2 && (len(cx.cl.net.faults) > 0)
